@@ -431,5 +431,6 @@ func TestReplay(t *testing.T) {
 	vt.Register(propConc)
 	vt.Register(propShadow)
 	vt.Register(propGraph)
+	vt.Register(propClosureRace)
 	vt.Replay(t)
 }
